@@ -617,7 +617,7 @@ func runBlocks() {
 	}
 	r := gen.New(gen.Seed() + 77)
 	g := &bgen{w: w, r: r, pg: &pgen{r: r}}
-	for i := 0; i < gen.Scale(2000, 20000); i++ {
+	for i := 0; i < gen.Scale(1200, 20000); i++ {
 		var us []vfexec.Unit
 		for j := g.r.Range(1, 4); j > 0; j-- {
 			us = append(us, vfexec.Unit{Txs: []vfexec.TxDesc{g.tx()}})
